@@ -26,7 +26,7 @@ ASSUMPTIONS = ["the report format of GapDegree/PosTags/SentenceCount.done() is p
 
 
 def budget(tier):
-    return 800 if tier == "quick" else 30000
+    return 2500 if tier == "quick" else 100000
 
 
 def generate(seed, tier):
@@ -91,7 +91,7 @@ EXT = {"export": ".export", "tigerxml": ".xml", "discobrackets": ".dbr", "bracke
 
 def execute(sc, sim):
     st = cm.Stats()
-    st.declare("edit_changed_gap_degree", "node_gap_degree_2plus", "gaps_at_several_levels", "unary_node",
+    st.declare("task_after_same_task_on_other_file", "edit_changed_gap_degree", "node_gap_degree_2plus", "gaps_at_several_levels", "unary_node",
                "two_task_instances_interleaved", "discontinuous_tree_refused_by_bracket_writer",
                "disco_order_nonidentity")
     viols = []
@@ -109,16 +109,31 @@ def execute(sc, sim):
     for name, tb in (("A", A), ("B", B), ("AB", AB)):
         files["/sim/w/%s%s" % (name, EXT[fmt])] = cm.render_file(
             {"tb": tb, "codec": CODEC[fmt], "layout": sc["layout"], "enc": "utf-8"})
-    # ---- CLI runs: each task on A, B, A+B in one fresh process each
+    # ---- CLI runs: the three tasks on one file in one simulated process (so a task runs after
+    # other tasks), for half of the scenarios preceded by a run of a task on ANOTHER file in the
+    # same process (K5: history must not leak into the report)
     reports = {}
-    for task in ("GapDegree", "PosTags", "SentenceCount"):
-        for name in ("A", "B", "AB"):
-            argv = ["treeanalysis", "/sim/w/%s%s" % (name, EXT[fmt]), task, "--src-format", fmt,
-                    "--src-opts", "quiet"]
-            obs = sim.run({"files": files, "io_seed": sc["io_seed"],
-                           "sessions": [{"id": "c", "ops": [["cli", argv]]}]})
-            st.add_obs(obs)
-            rec = obs["sessions"]["c"][0]
+    hist_rng = random.Random(sc["io_seed"])
+    for name in ("A", "B", "AB"):
+        ops = []
+        if hist_rng.random() < 0.5:
+            other = {"A": "B", "B": "AB", "AB": "A"}[name]
+            ops.append(["cli", ["treeanalysis", "/sim/w/%s%s" % (other, EXT[fmt]),
+                                hist_rng.choice(["GapDegree", "PosTags", "SentenceCount"]),
+                                "--src-format", fmt, "--src-opts", "quiet"]])
+            st.fault("history")
+            st.probe("task_after_same_task_on_other_file")
+        npre = len(ops)
+        tasks = ["GapDegree", "PosTags", "SentenceCount"]
+        hist_rng.shuffle(tasks)
+        for task in tasks:
+            ops.append(["cli", ["treeanalysis", "/sim/w/%s%s" % (name, EXT[fmt]), task,
+                                "--src-format", fmt, "--src-opts", "quiet"]])
+        obs = sim.run({"files": files, "io_seed": sc["io_seed"],
+                       "sessions": [{"id": "c", "ops": ops, "on_error": "continue"}]})
+        st.add_obs(obs)
+        recs = obs["sessions"]["c"]
+        for task, rec in zip(tasks, recs[npre:]):
             if "exc" in rec or rec["ok"].get("exit") != 0:
                 viols.append(cm.viol("C16/cli-failed/%s/%s" % (task, rec.get("exc") or "exit"),
                                      fmt=fmt, msg=rec.get("msg")))
